@@ -153,7 +153,25 @@ async fn run_ops(b: &pipe::Built, ops: &[X]) -> Option<Vec<X>> {
     Some(out)
 }
 
+/// a crashed earlier process with this process' id may have left fixture directories `.run/<pid>-<n>` behind; `build_host` would
+/// write the next fixture INTO such a directory (stale files, e.g. an errors/404.html, would join it): remove them once
+fn clean_stale_dirs() {
+    static ONCE: std::sync::Once = std::sync::Once::new();
+    ONCE.call_once(|| {
+        let run = format!("{}/.run", env!("CARGO_MANIFEST_DIR").trim_end_matches("/harness"));
+        let prefix = format!("{}-", std::process::id());
+        if let Ok(rd) = std::fs::read_dir(&run) {
+            for e in rd.flatten() {
+                if e.file_name().to_string_lossy().starts_with(&prefix) {
+                    let _ = std::fs::remove_dir_all(e.path());
+                }
+            }
+        }
+    });
+}
+
 fn run(x: &X) -> X {
+    clean_stale_dirs();
     let l = match x.as_l() {
         Some(l) if l.len() == 2 => l,
         _ => return X::bad(),
@@ -445,6 +463,7 @@ fn judge(ops: &[X], outs: &[WireOut]) -> Vec<X> {
 }
 
 fn wire(x: &X, verdict: bool) -> X {
+    clean_stale_dirs();
     let l = match x.as_l() {
         Some(l) if l.len() == 2 => l,
         _ => return X::bad(),
